@@ -734,6 +734,36 @@ def h12(ctx):
     ctx.floor("H12", n, 8, "kind-specific constructions and key reads")
 
 
+def h13(ctx):
+    m = ctx.model
+    ctx.rule("H13", "bytes are strings all the way down or not at all: BasicBuilder registers `bytes` with the StringNode builder (pickles "
+                    "are full of bytes), so everything that takes a StringNode's object apart must cope with bytes.  "
+                    "string_edit_distance builds one StringNode per element by iterating the object - for bytes the elements are ints, "
+                    "and StringNode.edits then calls len() on an int (TypeError in every output format), sizes become the number of "
+                    "decimal digits, and the YAML string formatter tests `'\\n' in <bytes>`")
+    bq = m.find_class("BasicBuilder")
+    reg = False
+    if bq:
+        for name, (kind, fn) in m.attrs[bq].items():
+            if kind == "def" and any("bytes" in ast.unparse(d) for d in fn.node.decorator_list) and "StringNode(" in ast.unparse(fn.node):
+                reg = True
+    sed = m.functions.get("graphtage.graphtage.string_edit_distance")
+    if not reg or sed is None:
+        ctx.proved("H13", "graphtage/builder.py", "BasicBuilder", None, "bytes are not StringNodes", "no builder wraps bytes in a StringNode", nontrivial=False)
+        return
+    comps = [c for c in walk_no_nested(sed.node) if isinstance(c, (ast.ListComp, ast.GeneratorExp)) and "StringNode(" in ast.unparse(c.elt)]
+    ctx.floor("H13", len(comps), 1, "per-element StringNode constructions in string_edit_distance")
+    handles = "bytes" in ast.unparse(sed.node).split('"""')[-1]
+    for c in comps:
+        if handles:
+            ctx.proved("H13", sed.file, "string_edit_distance", c, f"elements of `{norm(c.generators[0].iter, 10)}`", "bytes arguments are split into one-byte strings")
+        else:
+            ctx.violation("H13", sed.file, "string_edit_distance", c, f"elements of `{norm(c.generators[0].iter, 10)}`",
+                          f"`{norm(c, 50)}` iterates its argument: for a bytes value (a pickled b'abc') the elements are ints, so the "
+                          f"character nodes wrap 97, 98, 99 - StringNode.edits calls len() on them (TypeError: object of type 'int' has "
+                          f"no len()), and two pickles whose bytes values differ cannot be compared or rendered in any format or mode")
+
+
 def h6_copy(ctx, reach):
     m = ctx.model
     ctx.rule("H6", "copy() is reachable while printing (formatter fallbacks copy children); every concrete node class "
@@ -1151,6 +1181,7 @@ def run(ctx):
     h9_palettes(ctx)
     h9b(ctx)
     h12(ctx)
+    h13(ctx)
     h10_release(ctx, cg)
     h11_leaf_domains(ctx, roots)
     h6_copy(ctx, reach)
